@@ -200,6 +200,16 @@ def structured_family():
     return out
 
 
+GENERIC_EFFECT = "generic instantiations with effectful statics"
+
+
+def up_to_numbering(lines):
+    """'key=number' lines reduced to what does not depend on the undocumented order of independent initialisers"""
+    keys = sorted(l.split("=")[0] for l in lines)
+    nums = sorted(l.split("=")[1] for l in lines if "=" in l)
+    return keys, nums
+
+
 def effect_family():
     """static initialisers with visible effects (they call a function that echoes): several classes whose initialisers are independent of
     each other, and some that read each other's statics. In which order independent initialisers run is not documented; what the
@@ -215,6 +225,20 @@ def effect_family():
                 # (given in dependency order, which the reference needs)
                 [mk("Zeta", Call("note", S("zeta"), I(5))), mk("Mid", Call("note", S("mid"), I(20))), mk("Alpha", Call("note", S("alpha"), Bin("+", SFld("Zeta", "v"), I(1)))),
                  mk("Omega", Call("note", S("omega"), Bin("+", SFld("Alpha", "v"), SFld("Mid", "v"))))])))
+    # instantiations of ONE generic class whose static initialiser has an effect (it draws the next number of a counter), created as
+    # bases of plain classes: which instantiation is initialised first is not documented, but it must not follow the order in which the
+    # plain classes are written. The lines are "subK=<number>": against the reference only the set of keys and the multiset of numbers
+    # are compared (see run()), against the other permutations the lines themselves.
+    from bsyntax import Ctor, Super, SFAsg, Expr
+    INT = P("int")
+    nxt = Func("next", [], INT, [Expr(SFAsg("Tally", "n", Bin("+", SFld("Tally", "n"), I(1)))), Ret(SFld("Tally", "n"))])
+    tally = Class("Tally", "", [Field(INT, "n", None, static=True)], [], [], [], static=True)
+    for targs in (("float", "bit"), ("int", "str"), ("long", "char"), ("bool", "float", "int"), ("str", "bit", "long")):
+        box = Class("Box", "", [Field(INT, "tag", Call("next"), static=True)], [], [Ctor([], [], default=True)], [], tparams=["T"])
+        subs = [Class("Sub%d" % k, "Box", [], [], [Ctor([], [Super()])], [], base_targs=[P(t)]) for k, t in enumerate(targs)]
+        out.append((GENERIC_EFFECT + " %s" % (targs,),
+                    Program([nxt, Func("main", [], VOID, [Echo(S("main"))] + [Echo(Bin("+", S("sub%d=" % k), SFld("Sub%d" % k, "tag"))) for k in range(len(targs))])],
+                            [tally, box] + subs)))
     return out
 
 
@@ -286,7 +310,7 @@ def run(tier, seed):
         ref = [l for l in eff_oracle[k]["out"] if not l.startswith(("<<", ">>"))]
         if got is None:
             bad[jid] = "%s: this order ends with %s %s" % (what, r.get("status"), r.get("what", (r.get("shots") or [{}])[0].get("what", "")))
-        elif sorted(got) != sorted(ref):
+        elif (up_to_numbering(got) != up_to_numbering(ref)) if what.startswith(GENERIC_EFFECT) else (sorted(got) != sorted(ref)):
             bad[jid] = "%s: prints %s, the reference prints the lines %s" % (what, got, ref)
         elif k in first and got != first[k][1]:
             bad[jid] = "%s: prints %s in this order and %s in the order %s" % (what, got, first[k][1], first[k][0])
